@@ -60,7 +60,19 @@ where
             return;
         };
 
+        #[cfg(p2panda_p2panda_verif)]
+        crate::verif_c14::yield_point("tracker_mark_as_done_after_remove").await;
+
         task.mark_as_done(result).await;
+    }
+}
+
+#[cfg(p2panda_p2panda_verif)]
+impl<T, ID> TaskTracker<T, ID> {
+    /// Verification hook: is the tracker map locked right now (probe only, never waits).
+    #[doc(hidden)]
+    pub fn verif_is_locked(&self) -> bool {
+        self.0.try_read().is_err()
     }
 }
 
@@ -108,6 +120,9 @@ where
             *ready_result = Some(result);
         }
 
+        #[cfg(p2panda_p2panda_verif)]
+        crate::verif_c14::yield_point("task_mark_as_done_between_set_and_notify").await;
+
         self.ready_signal.notify_waiters();
     }
 
@@ -123,8 +138,14 @@ where
             }
         }
 
+        #[cfg(p2panda_p2panda_verif)]
+        crate::verif_c14::yield_point("task_ready_between_check_and_wait").await;
+
         // If not, we wait until we got notified that an result exists.
         self.ready_signal.notified().await;
+
+        #[cfg(p2panda_p2panda_verif)]
+        crate::verif_c14::yield_point("task_ready_after_wait").await;
 
         let ready_result = self.ready_result.lock().await;
         ready_result
